@@ -782,3 +782,190 @@ def r11_yuy2_siblings(ck, P):
                 ck.ok(R, '%s: %s of pixel p read at row byte %s in both readers' % (un, nm, b_p))
             else:
                 ck.violation(R, 'fetch_scanline_yuy2', '%s byte of a pixel (%s)' % (nm, un), 'the yuy2 scanline reader takes %s of pixel p = x + i from row byte %s, the single-pixel reader from %s: for some starting x the scanline reader pairs a luma sample with the chroma of the neighbouring macropixel (U and V swapped)' % (nm, a_p, b_p), un)
+
+
+# ------------------------------------------------------------------------------ SIMD widening / narrowing helpers
+_F565 = dict(r=(5, 11), g=(6, 5), b=(5, 0))
+
+
+def _w8(arg, base, c):
+    """the 8 bits (LSB first) of channel c widened by bit replication from the r5g6b5 pixel at bit `base` of argument `arg`"""
+    n, pos = _F565[c]
+    return [('in', arg, base + pos + n - 1 - ((7 - i) % n)) for i in range(8)]
+
+
+def _ba(b):
+    if isinstance(b, tuple) and b[0] == 'in':
+        return 'bit %d of argument %d' % (b[2], b[1])
+    if isinstance(b, tuple) and b[0] in ('or', 'and', 'xor'):
+        return b[0].upper() + ' of {' + ', '.join(sorted(_ba(q) for q in b[1])) + '}'
+    if isinstance(b, tuple) and b[0] == 'not':
+        return 'inverted ' + _ba(('in',) + tuple(b[1:]))
+    return _b(b)
+
+
+def _n565(arg, bb, gb, rb):
+    """the 16 bits of an r5g6b5 pixel narrowed from 8-bit channels whose bit 0 is at bb / gb / rb of argument `arg`"""
+    return [('in', arg, bb + 3 + j) for j in range(5)] + [('in', arg, gb + 2 + j) for j in range(6)] + [('in', arg, rb + 3 + j) for j in range(5)]
+
+
+def _bytes16(arg, n, base=0):
+    """precondition for saturating packs: n 16-bit lanes each holding an 8-bit value"""
+    out = []
+    for l in range(n):
+        out += [('in', arg, base + 16 * l + j) for j in range(8)] + [0] * 8
+    return out
+
+
+def _sse2_masks(P):
+    """the 128-bit constants pixman-sse2.c keeps in globals: each is stored exactly once, by the constructor, from create_mask_16_128 /
+    create_mask_2x32_128 with literal arguments (the two builders themselves are checked by provenance in the rule)"""
+    u = P.units.get('pixman-sse2.c')
+    out = {}
+    if u is None:
+        return out
+    stores = defaultdict(list)
+    for f in u.functions.values():
+        for x in f.insts():
+            if x.op == 'store' and x.a[1][0] == 'g':
+                stores[x.a[1][1]].append((f, x))
+    for name, sts in stores.items():
+        vals = set()
+        for f, x in sts:
+            v = None
+            c = f.v(x.a[0])
+            if c is not None and c.op == 'call' and c.callee == 'create_mask_16_128' and c.a[0][0] == 'c':
+                k = int(c.a[0][1]) & 0xffff
+                v = sum(k << (16 * i) for i in range(8))
+            elif c is not None and c.op == 'call' and c.callee == 'create_mask_2x32_128' and c.a[0][0] == 'c' and c.a[1][0] == 'c':
+                m0, m1 = int(c.a[0][1]) & 0xffffffff, int(c.a[1][1]) & 0xffffffff
+                v = m1 | m0 << 32 | m1 << 64 | m0 << 96
+            vals.add(v)
+        if len(vals) == 1 and None not in vals:
+            out[name] = vals.pop()
+    return out
+
+
+def r12_simd_helpers(ck, P, rid='C10-R12'):
+    """T-BIT over the MMX / SSE2 pixel helpers: widening r5g6b5 is bit replication, narrowing keeps the most significant bits, the
+    8888 <-> 16-bit-lane helpers move whole bytes — the same definition the general accessors follow (C10-R1)"""
+    R = ck.rule(rid, 'the MMX and SSE2 helpers that widen r5g6b5 / a8r8g8b8 pixels to 8-bit channels and narrow them back (expand565, expand_4xpacked565, pack_565, pack_4xpacked565, expand8888, expandx888, pack8888; unpack_565_to_8888, unpack_565_128_4x128, pack_565_4x128_128, pack_565_32_16, expand565_16_1x128, unpack_32_1x128, unpack_128_2x128, pack_2x128_128, pack_1x128_32) have bit for bit the provenance of the general codec: replication of the top bits when widening, truncation to the top bits when narrowing', floor=33)
+    Z8 = [0] * 8
+    ST = ['*'] * 16
+    cases = []     # (unit, wrapper name, C text, arg_bits, expected, reported function)
+    # ---------------- MMX
+    mm = ['#include <config.h>', '#include "pixman-mmx.c"']
+    for pos in range(4):
+        nm = 'px_mmx_expand565_%d' % pos
+        mm.append('uint64_t %s (uint64_t s) { return to_uint64 (expand565 (to_m64 (s), %d)); }' % (nm, pos))
+        cases.append(('mmx', nm, None, _w8(0, 16 * pos, 'b') + Z8 + _w8(0, 16 * pos, 'g') + Z8 + _w8(0, 16 * pos, 'r') + Z8 + ST, 'expand565'))
+        nm = 'px_mmx_pack_565_%d' % pos
+        mm.append('uint64_t %s (uint64_t s, uint64_t t) { return to_uint64 (pack_565 (to_m64 (s), to_m64 (t), %d)); }' % (nm, pos))
+        exp = [('in', 1, j) for j in range(64)]
+        exp[16 * pos:16 * pos + 16] = _n565(0, 0, 16, 32)
+        cases.append(('mmx', nm, None, exp, 'pack_565'))
+    for k in range(2):
+        for fa in range(2):
+            nm = 'px_mmx_expand4_%d_%d' % (k, fa)
+            mm.append('uint64_t %s (uint64_t s) { __m64 a, b; expand_4xpacked565 (to_m64 (s), &a, &b, %d); return to_uint64 (%s); }' % (nm, fa, 'ab'[k]))
+            exp = []
+            for px in (2 * k, 2 * k + 1):
+                exp += _w8(0, 16 * px, 'b') + _w8(0, 16 * px, 'g') + _w8(0, 16 * px, 'r') + [fa] * 8
+            cases.append(('mmx', nm, None, exp, 'expand_4xpacked565'))
+        nm = 'px_mmx_expand8888_%d' % k
+        mm.append('uint64_t %s (uint64_t s) { return to_uint64 (expand8888 (to_m64 (s), %d)); }' % (nm, k))
+        exp = []
+        for c in range(4):
+            exp += [('in', 0, 32 * k + 8 * c + j) for j in range(8)] + Z8
+        cases.append(('mmx', nm, None, exp, 'expand8888'))
+        nm = 'px_mmx_expandx888_%d' % k
+        mm.append('uint64_t %s (uint64_t s) { return to_uint64 (expandx888 (to_m64 (s), %d)); }' % (nm, k))
+        cases.append(('mmx', nm, None, exp[:48] + [1] * 8 + Z8, 'expandx888'))
+    mm.append('uint64_t px_mmx_pack4 (uint64_t s, uint64_t t) { return to_uint64 (pack_4xpacked565 (to_m64 (s), to_m64 (t))); }')
+    exp = []
+    for px in range(4):
+        b = 32 * (px % 2)
+        exp += _n565(px // 2, b, b + 8, b + 16)
+    cases.append(('mmx', 'px_mmx_pack4', None, exp, 'pack_4xpacked565'))
+    mm.append('uint64_t px_mmx_pack8888 (uint64_t s, uint64_t t) { return to_uint64 (pack8888 (to_m64 (s), to_m64 (t))); }')
+    exp = []
+    for a in range(2):
+        for l in range(4):
+            exp += [('in', a, 16 * l + j) for j in range(8)]
+    cases.append(('mmx', 'px_mmx_pack8888', {0: _bytes16(0, 4), 1: _bytes16(1, 4)}, exp, 'pack8888'))
+    # ---------------- SSE2
+    ss = ['#include <config.h>', '#include "pixman-sse2.c"',
+          '__m128i px_sse2_cm16 (uint16_t m) { return create_mask_16_128 (m); }',
+          '__m128i px_sse2_cm2x32 (uint32_t a, uint32_t b) { return create_mask_2x32_128 (a, b); }']
+    cases.append(('sse2', 'px_sse2_cm16', None, [('in', 0, j % 16) for j in range(128)], 'create_mask_16_128'))
+    cases.append(('sse2', 'px_sse2_cm2x32', None, ([('in', 1, j) for j in range(32)] + [('in', 0, j) for j in range(32)]) * 2, 'create_mask_2x32_128'))
+    ss.append('__m128i px_sse2_unpack565 (__m128i s) { return unpack_565_to_8888 (s); }')
+    ab = []; exp = []
+    for l in range(4):
+        ab += [('in', 0, 32 * l + j) for j in range(16)] + [0] * 16
+        exp += _w8(0, 32 * l, 'b') + _w8(0, 32 * l, 'g') + _w8(0, 32 * l, 'r') + ['*'] * 8
+    cases.append(('sse2', 'px_sse2_unpack565', {0: ab}, exp, 'unpack_565_to_8888'))
+    for k in range(4):
+        nm = 'px_sse2_unpack4_%d' % k
+        ss.append('__m128i %s (__m128i s) { __m128i a, b, c, d; unpack_565_128_4x128 (s, &a, &b, &c, &d); return %s; }' % (nm, 'abcd'[k]))
+        exp = []
+        for px in (2 * k, 2 * k + 1):
+            exp += _w8(0, 16 * px, 'b') + Z8 + _w8(0, 16 * px, 'g') + Z8 + _w8(0, 16 * px, 'r') + Z8 + ST
+        cases.append(('sse2', nm, None, exp, 'unpack_565_128_4x128'))
+    ss.append('__m128i px_sse2_pack4 (__m128i a, __m128i b, __m128i c, __m128i d) { return pack_565_4x128_128 (&a, &b, &c, &d); }')
+    exp = []
+    for px in range(8):
+        b = 64 * (px % 2)
+        exp += _n565(px // 2, b, b + 16, b + 32)
+    cases.append(('sse2', 'px_sse2_pack4', {i: _bytes16(i, 8) for i in range(4)}, exp, 'pack_565_4x128_128'))
+    ss.append('uint32_t px_sse2_pack_565_32_16 (uint32_t s) { return pack_565_32_16 (s); }')
+    cases.append(('sse2', 'px_sse2_pack_565_32_16', None, _n565(0, 0, 8, 16) + [0] * 16, 'pack_565_32_16'))
+    ss.append('__m128i px_sse2_expand565_16 (uint32_t s) { return expand565_16_1x128 ((uint16_t) s); }')
+    cases.append(('sse2', 'px_sse2_expand565_16', None, _w8(0, 0, 'b') + Z8 + _w8(0, 0, 'g') + Z8 + _w8(0, 0, 'r') + Z8 + ['*'] * 80, 'expand565_16_1x128'))
+    ss.append('__m128i px_sse2_unpack32 (uint32_t s) { return unpack_32_1x128 (s); }')
+    exp = []
+    for c in range(4):
+        exp += [('in', 0, 8 * c + j) for j in range(8)] + Z8
+    cases.append(('sse2', 'px_sse2_unpack32', None, exp + [0] * 64, 'unpack_32_1x128'))
+    ss.append('uint32_t px_sse2_pack32 (__m128i s) { return pack_1x128_32 (s); }')
+    cases.append(('sse2', 'px_sse2_pack32', {0: _bytes16(0, 8)}, [('in', 0, 16 * (j // 8) + j % 8) for j in range(32)], 'pack_1x128_32'))
+    for k in range(2):
+        nm = 'px_sse2_unpack128_%d' % k
+        ss.append('__m128i %s (__m128i s) { __m128i a, b; unpack_128_2x128 (s, &a, &b); return %s; }' % (nm, 'ab'[k]))
+        exp = []
+        for c in range(8):
+            exp += [('in', 0, 64 * k + 8 * c + j) for j in range(8)] + Z8
+        cases.append(('sse2', nm, None, exp, 'unpack_128_2x128'))
+    ss.append('__m128i px_sse2_pack128 (__m128i a, __m128i b) { return pack_2x128_128 (a, b); }')
+    exp = []
+    for a in range(2):
+        for l in range(8):
+            exp += [('in', a, 16 * l + j) for j in range(8)]
+    cases.append(('sse2', 'px_sse2_pack128', {0: _bytes16(0, 8), 1: _bytes16(1, 8)}, exp, 'pack_2x128_128'))
+    have = {'mmx': 'pixman-mmx.c' in P.units, 'sse2': 'pixman-sse2.c' in P.units}
+    SU = {}
+    if have['mmx']:
+        SU['mmx'] = _shim_program('simd565mmx', mm, flags=('-DHAVE_CONFIG_H', '-mmmx', '-DUSE_X86_MMX', '-Wno-everything'))
+    if have['sse2']:
+        SU['sse2'] = _shim_program('simd565sse2', ss, flags=('-DHAVE_CONFIG_H', '-msse2', '-DUSE_SSE2', '-Wno-everything'))
+    gl = _sse2_masks(P)
+    for unit, name, ab, exp, fn in cases:
+        if unit not in SU:
+            continue
+        f = SU[unit].functions.get(name)
+        if f is None:
+            raise AnalysisBroken('helper wrapper %s missing' % name)
+        got, it = bitprov.simd_provenance(f, ab, gl)
+        src = 'pixman-%s.c' % unit
+        what = '%s (%s)' % (fn, name[3:])
+        if got is None:
+            ck.incomplete(R, '%s: no return value computed' % what); continue
+        if len(got) != len(exp):
+            ck.incomplete(R, '%s: result width %d, expected %d' % (what, len(got), len(exp))); continue
+        diff = [(i, got[i], exp[i]) for i in range(len(exp)) if got[i] != exp[i] and exp[i] != '*']
+        if not diff:
+            ck.ok(R, what, 'all %d result bits have the specified provenance' % len(exp)); continue
+        if all(g == bitprov.TOP for _, g, _ in diff):
+            ck.incomplete(R, '%s: %d result bits could not be traced (first: bit %d; untraced: %s)' % (what, len(diff), diff[0][0], sorted({(u.callee or u.op) for u in it.unknown})[:4])); continue
+        i, g, e = [d for d in diff if d[1] != bitprov.TOP][0]
+        ck.violation(R, fn, what, '%s: result bit %d comes from %s but widening by bit replication / narrowing to the top bits requires %s (%d bits differ): this helper no longer agrees with the general codec of the format' % (what, i, _ba(g), _ba(e), len(diff)), src)
